@@ -36,6 +36,7 @@ def parseRepl (k v : String) : Option Repl := do
   | "cb" => some (.cb n)
   | "cbo" => some (.cbo n)
   | "tab" => some (.tab n)
+  | "tin" => some (.tin n)
   | _ => none
 
 /-- 48 ordinary targets + 6 variadic steady targets (locations 48..53; the probe encodes the argument as a tuple) -/
@@ -51,7 +52,11 @@ def addSeg (ths : List PThread) (seg : List String) : Option (List PThread) := d
         let ns ← rest.mapM (·.toNat?)
         if ns.all (· < NT) && !ns.isEmpty then some { th with targets := th.targets ++ ns } else none
       else match rest with
-        | ["mock", f, k, v, wo] => do
+        | ["ext", f] => do
+          let fn ← f.toNat?
+          if fn < 48 then some { th with ops := th.ops ++ [.ext fn] } else none
+        | [m, f, k, v, wo] => do
+          if m != "mock" && m != "mockn" then none   -- mockn: the probe addresses the target by name; same sections
           let fn ← f.toNat?
           let r ← parseRepl k v
           let w ← wo.toNat?
@@ -65,6 +70,7 @@ def addSeg (ths : List PThread) (seg : List String) : Option (List PThread) := d
 structure Round where
   k : Nat
   threads : List PThread
+  plh : List (Nat × Nat) := []    -- `P f p`: target f uses placeholder variable p (default: its own)
 
 def parseRound (toks : List String) : Option Round := do
   match splitBar toks with
@@ -75,9 +81,17 @@ def parseRound (toks : List String) : Option Round := do
     if !(kv.all (fun p => p.1 = "y" || p.1 = "K" || p.1 = "d")) then none
     let k := ((kv.find? (·.1 = "K")).map (·.2)).getD 1
     let segs := segs.filter (fun s => s.head? != some "N")
+    let psegs := segs.filter (fun s => s.head? == some "P")
+    let segs := segs.filter (fun s => s.head? != some "P")
+    let plh ← psegs.mapM (fun s => match s with
+      | [_, f, p] => do
+        let fn ← f.toNat?
+        let pn ← p.toNat?
+        if fn < 48 && pn < 48 then some (fn, pn) else none
+      | _ => none)
     let ths ← segs.foldlM addSeg []
     if segs.any (fun s => s.length < 2) then none
-    some { k := k, threads := ths }
+    some { k := k, threads := ths, plh := plh }
   | [] => none
 
 /-- builder API → critical sections: `Conc.compileOps` (the class `Conc.builderProg` of theorem `C11.quiescent_restored_builders`
@@ -88,6 +102,12 @@ def compileC (k : Nat) (ci : Nat) (th : PThread) : List Sec :=
   (List.range k).flatMap (fun i => th.targets.map (fun f => Sec.call f ((ci + i) % 4 + 1)))
 
 def layout : Layout := { plh := fun f => f + 1000, pages := fun l => [l / 4], orig := fun f a => a * 7 + f }
+
+/-- layout of a round: placeholder assignment from the `P` segments -/
+def layoutOf (r : Round) : Layout :=
+  { layout with plh := fun f => match r.plh.find? (·.1 = f) with
+      | some (_, p) => p + 1000
+      | none => f + 1000 }
 
 structure Sys where
   prog : Tid → List Sec
@@ -154,9 +174,9 @@ def tokMI (inReplace : Bool) : MI → String
   | .write (.jump _) => "WriteTo"
 
 def tokW : WStep → String
-  | .protW _ => "mprotect-RWX writeTo"     -- writeTo: darwin fallback inside the error branch (mwrite_amd64.go:26)
+  | .prot _ p => (if p.w then (if p.x then "mprotect-RWX" else "mprotect-RW") else (if p.x then "mprotect-RX" else "mprotect-R"))
+      ++ (if p.w then " writeTo" else "")     -- writeTo: darwin fallback inside the error branch (mwrite_amd64.go:26)
   | .copy => "copy"
-  | .protX _ => "mprotect-RX"
 
 def joinToks (l : List String) : String := " ".intercalate (l.filter (· ≠ ""))
 
@@ -185,20 +205,20 @@ def handle (toks : List String) : Option String :=
     match parseRound toks.tail with
     | some r =>
       let sy := mkSys r
-      some (observe sy (run layout sy.prog (seqSchedule sy) (init (fun _ => .pristine))))
+      some (observe sy (run (layoutOf r) sy.prog (seqSchedule sy) (init (fun _ => .pristine))))
     | none => some "bad-op"
   | "c11.sched" :: rest =>
     let (line, sched) := rest.span (· != "::")
     match parseRound line, (sched.drop 1).mapM (·.toNat?) with
     | some r, some σ =>
       let sy := mkSys r
-      some (observe sy (run layout sy.prog σ (init (fun _ => .pristine))))
+      some (observe sy (run (layoutOf r) sy.prog σ (init (fun _ => .pristine))))
     | _, _ => some "bad-op"
   | "c11.writes" :: _ =>
     match parseRound toks.tail with
     | some r =>
       let sy := mkSys r
-      let s := run layout sy.prog (seqSchedule sy) (init (fun _ => .pristine))
+      let s := run (layoutOf r) sy.prog (seqSchedule sy) (init (fun _ => .pristine))
       some s!"copies={(s.acc.filter (fun a => a.v == .text && a.write)).length}"
     | none => some "bad-op"
   | ["c11.skel", name] => some ((skel name).getD "bad-op")
